@@ -4,7 +4,8 @@ import PydraModel.JobProto.HashCheck
 JSON-lines driver of the C19 model.
 
   in : {"op": "run", "fields": [[name, valueBefore, valueAfter, visibleInSubmitter], …]   (value ids)
-        "hash": [[valueId, hashId], …], "memo": bool, "check": bool, "raise_errors": bool, "same_job": bool}
+        "hash": [[valueId, hashId], …], "memo": bool, "check": bool, "raise_errors": bool, "same_job": bool,
+        "skip": [names]  (optional: fields exempted from the post-run check; the code exempts none)}
   out: {"raised": bool, "changed": [names], "dir": "orig"|"other", "report": "silent"|"raised"|"logged"}
 
   in : {"op": "stage", "uses_staged": bool, "mode": "copy"|"link"|"hardlink"|"leave"}
@@ -39,7 +40,11 @@ def handleRun (j : Json) : Except String Json := do
   let f : Nat → Nat → Nat := fun n v => match fields.find? (fun q => q.1 == n) with | some q => q.2.2.1 | none => v
   let visible : Nat → Bool := fun n => match fields.find? (fun q => q.1 == n) with | some q => q.2.2.2 | none => false
   let combine : List (Nat × Nat) → List (Nat × Nat) := fun hs => hs
-  let o := runJob hash combine memo check (Job.fresh ins) f
+  -- "skip": fields a (hypothetical) check would not re-hash; the code skips none, so the key may be absent
+  let skipL ← match j.getObjVal? "skip" with
+    | .ok v => do (← v.getArr?).toList.mapM (fun x => x.getNat?)
+    | .error _ => pure []
+  let o := runJobSkip hash combine (fun n => skipL.contains n) memo check (Job.fresh ins) f
   let rep := match report hash combine raiseErrors same visible ins f o with
     | .silent => "silent" | .raised => "raised" | .logged => "logged"
   return Json.mkObj [
